@@ -4,59 +4,107 @@
 (* evictions on one key (singleflight.go startCall/doCall/deleteCall,      *)
 (* cache_impl.go Get/refreshKey/afterDeleteCall/atomicSet/atomicDelete/    *)
 (* deleteNodeFromMap).  One label per step that the gate replayer can      *)
-(* control: the lookup, the loader entry and exit (the scripted loader is   *)
-(* the gate), the installation (one table computation), the release of the *)
-(* waiters.                                                                *)
+(* control: the lock-free lookup, the registration of the in-flight        *)
+(* record (NOT under the bucket lock), the loader entry and exit (the      *)
+(* scripted loader is the gate), the installation (one table computation   *)
+(* under the bucket lock), the release of the waiters.  A write is two     *)
+(* steps under the bucket lock, as in the code: it clears the in-flight    *)
+(* record at the START of its computation and publishes its node at the    *)
+(* END - a load can be registered in between (finding F14).                *)
 (*                                                                         *)
 (* C08  NoOverlap, CleanTable, termination (every process reaches Done)    *)
 (* C09  NoStaleInstall: a load result is installed only if no write,       *)
 (*      invalidation or eviction of the key happened since the load        *)
 (*      started; afterwards the cache holds the explicit write.            *)
+(* C02/C10  NoDrop: a successfully loaded value is installed unless the    *)
+(*      key changed since the loading call looked it up (finding F16).     *)
+(*                                                                         *)
+(* Switches (each reproduces a finding on the model when set the old way): *)
+(*   Expected = "none" : the install step does not re-check the node the    *)
+(*                       load was started for -> NoStaleInstall violated   *)
+(*                       (code before fix 1a80e99, finding F14)            *)
+(*   Expected = "live" : it re-checks only against a live entry: a reload  *)
+(*                       registered while an invalidation of the PRESENT   *)
+(*                       key is between its two steps still resurrects     *)
+(*                       the key (found by TLC on this model: F17)         *)
+(*   Expected = "full" : the key must still hold what the lookup found     *)
+(*                       (closes the reload case, not the one below)       *)
+(* Known open window (finding F17, holds for every value of Expected): a   *)
+(* load registered while an INVALIDATION of the key is between its two     *)
+(* steps is not cleared and finds the key absent at its install step, so   *)
+(* it installs although the invalidation took effect after it started.     *)
+(* NoStaleInstall therefore excludes loads registered inside such a window *)
+(* (`inWindow`); NoWindowInstall states the full requirement and is        *)
+(* violated by the model of the current code - and by the code, see        *)
+(* known_findings.json.                                                    *)
+(*   StaleCancels = TRUE  : evicting a node that is no longer current      *)
+(*                          clears the in-flight load -> NoDrop violated   *)
+(*                          (code before fix 7dd53de)                      *)
 (***************************************************************************)
 EXTENDS Integers, Sequences, FiniteSets, TLC
 
-CONSTANTS Getters,      \* processes calling Get (load on miss, serve + reload when stale is not modelled here)
-          Refreshers,   \* processes calling Refresh (explicit reload)
+CONSTANTS Getters,      \* processes calling Get (load on miss)
+          Refreshers,   \* processes calling Refresh (explicit reload of whatever the lookup found)
           Writers,      \* processes performing one explicit write each
-          WriterKind,   \* Writers -> {"set", "invalidate", "evict"}
-          Outcomes      \* subset of {"val", "err", "nf", "panic"}
+          WriterKind,   \* Writers -> {"set", "invalidate", "evict", "stale"}   ("stale": eviction of a node that is not current)
+          Outcomes,     \* subset of {"val", "err", "nf", "panic"}
+          Preload,      \* TRUE: the key holds a value (50) initially
+          Expected, StaleCancels
 
 Nil == 0
 (* --algorithm LoadRace
-variables val = Nil,                 \* cached value of the key (Nil = absent); loaded values are 100 + infl id, written ones 200 + writer
-          infl = Nil,                \* in-flight record of the key (infl id = id of the process that created it)
+variables val = IF Preload THEN 50 ELSE Nil,   \* cached value of the key (Nil = absent); loaded values are 100 + id, written ones 200 + writer
+          infl = Nil,                \* in-flight record of the key (id of the process that created it)
+          locked = FALSE,            \* bucket lock of the key
           done = {},                 \* calls whose waiters have been released
           running = {},              \* calls whose loader is executing
           created = {},              \* calls created whose loader has not returned yet
-          res = [p \in Getters \cup Refreshers |-> <<"none", Nil>>],    \* result of each infl, by creator
-          writes = 0,                \* number of explicit writes / invalidations / evictions so far
-          startedAt = [p \in Getters \cup Refreshers |-> -1],          \* writes counter when the infl was created
+          res = [p \in Getters \cup Refreshers |-> <<"none", Nil>>],    \* result of each call, by creator
+          \* history, kept as flags so that the state space stays small:
+          stale = [p \in Getters \cup Refreshers |-> FALSE],      \* an explicit write / invalidation / eviction took effect since p created its in-flight record
+          touched = [p \in Getters \cup Refreshers |-> FALSE],    \* val changed (write or installation) or an explicit invalidation ran since p's lookup
+          seen = [p \in Getters \cup Refreshers |-> Nil],              \* value found by the lookup (the node a refresh reloads)
           superseded = {},           \* running calls during which the key was written
           got = [p \in Getters \cup Refreshers |-> <<"none", Nil>>],   \* what each caller returned
-          staleInstall = FALSE;
+          inWindow = [p \in Getters \cup Refreshers |-> FALSE],      \* registered while a writer was inside its computation
+          staleInstall = FALSE,
+          windowInstall = FALSE,
+          dropped = FALSE;
 
 fair process Loader \in Getters \cup Refreshers
 variables mine = Nil, outcome = "val", correct = FALSE;
 begin
- lookup:   if self \in Getters /\ val # Nil then
+ lookup:   touched[self] := FALSE;
+           if self \in Getters /\ val # Nil then
               got[self] := <<"hit", val>>; goto finish;
+           else
+              seen[self] := val;
            end if;
  start:    if infl = Nil then
-              infl := self; mine := self; startedAt[self] := writes; created := created \cup {self};
+              infl := self; mine := self; stale[self] := FALSE; created := created \cup {self};
+              inWindow[self] := locked;
            else
               mine := infl; goto wait;
            end if;
  ldEnter:  running := running \cup {self};
  ldExit:   with o \in Outcomes do outcome := o; end with;
            running := running \ {self}; superseded := superseded \ {self}; created := created \ {self};
- install:  \* afterDeleteCall: one computation on the key
-           correct := (infl = self);
-           if correct then infl := Nil; end if;
+ install:  \* afterDeleteCall: one computation on the key, under its bucket lock
+           await ~locked;
+           correct := (infl = self) /\ CASE Expected = "none" -> TRUE
+                                           [] Expected = "live" -> val = Nil \/ val = seen[self]
+                                           [] OTHER -> val = seen[self];
+           if infl = self then infl := Nil; end if;
            if correct /\ outcome = "nf" then
+              if val # Nil then touched := [p \in Getters \cup Refreshers |-> TRUE]; end if;
               val := Nil;
            elsif correct /\ outcome = "val" then
-              if startedAt[self] # writes then staleInstall := TRUE; end if;
-              val := 100 + self;
+              if stale[self] then
+                 if inWindow[self] then windowInstall := TRUE; else staleInstall := TRUE; end if;
+              end if;
+              val := 100 + self; touched := [p \in Getters \cup Refreshers |-> TRUE];
+           elsif outcome = "val" /\ ~touched[self] then
+              dropped := TRUE;     \* loaded, nothing intervened, and yet not installed
            end if;
            res[self] := <<outcome, IF outcome = "val" THEN 100 + self ELSE Nil>>;
  release:  done := done \cup {self};
@@ -67,74 +115,99 @@ begin
 end process;
 
 fair process Writer \in Writers
+variables wrote = FALSE;
 begin
- write:    \* Set / Invalidate / eviction: clears the in-flight record inside the table computation
-           if WriterKind[self] = "set" then
-              val := 200 + self; infl := Nil; writes := writes + 1; superseded := superseded \cup created;
-           elsif WriterKind[self] = "invalidate" then
-              val := Nil; infl := Nil; writes := writes + 1; superseded := superseded \cup created;
-           elsif val # Nil then       \* eviction only removes a present entry
-              val := Nil; infl := Nil; writes := writes + 1; superseded := superseded \cup created;
+ w_cancel: \* start of the table computation: take the bucket lock, clear the in-flight record
+           await ~locked;
+           locked := TRUE;
+           \* removing an absent key changes nothing (but an explicit invalidation still clears the in-flight record)
+           wrote := WriterKind[self] = "set" \/ (WriterKind[self] \in {"invalidate", "evict"} /\ val # Nil);
+           if wrote \/ WriterKind[self] = "invalidate" \/ (WriterKind[self] = "stale" /\ StaleCancels) then
+              infl := Nil; superseded := superseded \cup created;
            end if;
+           \* C09: after an explicit invalidation the cache holds nothing - a load it cancelled is not "dropped"
+           if WriterKind[self] = "invalidate" then touched := [p \in Getters \cup Refreshers |-> TRUE]; end if;
+ w_store:  \* end of the computation: publish, unlock
+           if wrote then
+              val := IF WriterKind[self] = "set" THEN 200 + self ELSE Nil;
+              stale := [p \in Getters \cup Refreshers |-> TRUE]; touched := [p \in Getters \cup Refreshers |-> TRUE];
+           end if;
+           locked := FALSE;
 end process;
 end algorithm; *)
 \* BEGIN TRANSLATION
-VARIABLES pc, val, infl, done, running, created, res, writes, startedAt, 
-          superseded, got, staleInstall, mine, outcome, correct
+VARIABLES pc, val, infl, locked, done, running, created, res, stale, touched, 
+          seen, superseded, got, inWindow, staleInstall, windowInstall, 
+          dropped, mine, outcome, correct, wrote
 
-vars == << pc, val, infl, done, running, created, res, writes, startedAt, 
-           superseded, got, staleInstall, mine, outcome, correct >>
+vars == << pc, val, infl, locked, done, running, created, res, stale, touched, 
+           seen, superseded, got, inWindow, staleInstall, windowInstall, 
+           dropped, mine, outcome, correct, wrote >>
 
 ProcSet == (Getters \cup Refreshers) \cup (Writers)
 
 Init == (* Global variables *)
-        /\ val = Nil
+        /\ val = IF Preload THEN 50 ELSE Nil
         /\ infl = Nil
+        /\ locked = FALSE
         /\ done = {}
         /\ running = {}
         /\ created = {}
         /\ res = [p \in Getters \cup Refreshers |-> <<"none", Nil>>]
-        /\ writes = 0
-        /\ startedAt = [p \in Getters \cup Refreshers |-> -1]
+        /\ stale = [p \in Getters \cup Refreshers |-> FALSE]
+        /\ touched = [p \in Getters \cup Refreshers |-> FALSE]
+        /\ seen = [p \in Getters \cup Refreshers |-> Nil]
         /\ superseded = {}
         /\ got = [p \in Getters \cup Refreshers |-> <<"none", Nil>>]
+        /\ inWindow = [p \in Getters \cup Refreshers |-> FALSE]
         /\ staleInstall = FALSE
+        /\ windowInstall = FALSE
+        /\ dropped = FALSE
         (* Process Loader *)
         /\ mine = [self \in Getters \cup Refreshers |-> Nil]
         /\ outcome = [self \in Getters \cup Refreshers |-> "val"]
         /\ correct = [self \in Getters \cup Refreshers |-> FALSE]
+        (* Process Writer *)
+        /\ wrote = [self \in Writers |-> FALSE]
         /\ pc = [self \in ProcSet |-> CASE self \in Getters \cup Refreshers -> "lookup"
-                                        [] self \in Writers -> "write"]
+                                        [] self \in Writers -> "w_cancel"]
 
 lookup(self) == /\ pc[self] = "lookup"
+                /\ touched' = [touched EXCEPT ![self] = FALSE]
                 /\ IF self \in Getters /\ val # Nil
                       THEN /\ got' = [got EXCEPT ![self] = <<"hit", val>>]
                            /\ pc' = [pc EXCEPT ![self] = "finish"]
-                      ELSE /\ pc' = [pc EXCEPT ![self] = "start"]
+                           /\ seen' = seen
+                      ELSE /\ seen' = [seen EXCEPT ![self] = val]
+                           /\ pc' = [pc EXCEPT ![self] = "start"]
                            /\ got' = got
-                /\ UNCHANGED << val, infl, done, running, created, res, writes, 
-                                startedAt, superseded, staleInstall, mine, 
-                                outcome, correct >>
+                /\ UNCHANGED << val, infl, locked, done, running, created, res, 
+                                stale, superseded, inWindow, staleInstall, 
+                                windowInstall, dropped, mine, outcome, correct, 
+                                wrote >>
 
 start(self) == /\ pc[self] = "start"
                /\ IF infl = Nil
                      THEN /\ infl' = self
                           /\ mine' = [mine EXCEPT ![self] = self]
-                          /\ startedAt' = [startedAt EXCEPT ![self] = writes]
+                          /\ stale' = [stale EXCEPT ![self] = FALSE]
                           /\ created' = (created \cup {self})
+                          /\ inWindow' = [inWindow EXCEPT ![self] = locked]
                           /\ pc' = [pc EXCEPT ![self] = "ldEnter"]
                      ELSE /\ mine' = [mine EXCEPT ![self] = infl]
                           /\ pc' = [pc EXCEPT ![self] = "wait"]
-                          /\ UNCHANGED << infl, created, startedAt >>
-               /\ UNCHANGED << val, done, running, res, writes, superseded, 
-                               got, staleInstall, outcome, correct >>
+                          /\ UNCHANGED << infl, created, stale, inWindow >>
+               /\ UNCHANGED << val, locked, done, running, res, touched, seen, 
+                               superseded, got, staleInstall, windowInstall, 
+                               dropped, outcome, correct, wrote >>
 
 ldEnter(self) == /\ pc[self] = "ldEnter"
                  /\ running' = (running \cup {self})
                  /\ pc' = [pc EXCEPT ![self] = "ldExit"]
-                 /\ UNCHANGED << val, infl, done, created, res, writes, 
-                                 startedAt, superseded, got, staleInstall, 
-                                 mine, outcome, correct >>
+                 /\ UNCHANGED << val, infl, locked, done, created, res, stale, 
+                                 touched, seen, superseded, got, inWindow, 
+                                 staleInstall, windowInstall, dropped, mine, 
+                                 outcome, correct, wrote >>
 
 ldExit(self) == /\ pc[self] = "ldExit"
                 /\ \E o \in Outcomes:
@@ -143,83 +216,117 @@ ldExit(self) == /\ pc[self] = "ldExit"
                 /\ superseded' = superseded \ {self}
                 /\ created' = created \ {self}
                 /\ pc' = [pc EXCEPT ![self] = "install"]
-                /\ UNCHANGED << val, infl, done, res, writes, startedAt, got, 
-                                staleInstall, mine, correct >>
+                /\ UNCHANGED << val, infl, locked, done, res, stale, touched, 
+                                seen, got, inWindow, staleInstall, 
+                                windowInstall, dropped, mine, correct, wrote >>
 
 install(self) == /\ pc[self] = "install"
-                 /\ correct' = [correct EXCEPT ![self] = (infl = self)]
-                 /\ IF correct'[self]
+                 /\ ~locked
+                 /\ correct' = [correct EXCEPT ![self] = (infl = self) /\ CASE Expected = "none" -> TRUE
+                                                                              [] Expected = "live" -> val = Nil \/ val = seen[self]
+                                                                              [] OTHER -> val = seen[self]]
+                 /\ IF infl = self
                        THEN /\ infl' = Nil
                        ELSE /\ TRUE
                             /\ infl' = infl
                  /\ IF correct'[self] /\ outcome[self] = "nf"
-                       THEN /\ val' = Nil
-                            /\ UNCHANGED staleInstall
-                       ELSE /\ IF correct'[self] /\ outcome[self] = "val"
-                                  THEN /\ IF startedAt[self] # writes
-                                             THEN /\ staleInstall' = TRUE
-                                             ELSE /\ TRUE
-                                                  /\ UNCHANGED staleInstall
-                                       /\ val' = 100 + self
+                       THEN /\ IF val # Nil
+                                  THEN /\ touched' = [p \in Getters \cup Refreshers |-> TRUE]
                                   ELSE /\ TRUE
-                                       /\ UNCHANGED << val, staleInstall >>
+                                       /\ UNCHANGED touched
+                            /\ val' = Nil
+                            /\ UNCHANGED << staleInstall, windowInstall, 
+                                            dropped >>
+                       ELSE /\ IF correct'[self] /\ outcome[self] = "val"
+                                  THEN /\ IF stale[self]
+                                             THEN /\ IF inWindow[self]
+                                                        THEN /\ windowInstall' = TRUE
+                                                             /\ UNCHANGED staleInstall
+                                                        ELSE /\ staleInstall' = TRUE
+                                                             /\ UNCHANGED windowInstall
+                                             ELSE /\ TRUE
+                                                  /\ UNCHANGED << staleInstall, 
+                                                                  windowInstall >>
+                                       /\ val' = 100 + self
+                                       /\ touched' = [p \in Getters \cup Refreshers |-> TRUE]
+                                       /\ UNCHANGED dropped
+                                  ELSE /\ IF outcome[self] = "val" /\ ~touched[self]
+                                             THEN /\ dropped' = TRUE
+                                             ELSE /\ TRUE
+                                                  /\ UNCHANGED dropped
+                                       /\ UNCHANGED << val, touched, 
+                                                       staleInstall, 
+                                                       windowInstall >>
                  /\ res' = [res EXCEPT ![self] = <<outcome[self], IF outcome[self] = "val" THEN 100 + self ELSE Nil>>]
                  /\ pc' = [pc EXCEPT ![self] = "release"]
-                 /\ UNCHANGED << done, running, created, writes, startedAt, 
-                                 superseded, got, mine, outcome >>
+                 /\ UNCHANGED << locked, done, running, created, stale, seen, 
+                                 superseded, got, inWindow, mine, outcome, 
+                                 wrote >>
 
 release(self) == /\ pc[self] = "release"
                  /\ done' = (done \cup {self})
                  /\ got' = [got EXCEPT ![self] = res[self]]
                  /\ pc' = [pc EXCEPT ![self] = "finish"]
-                 /\ UNCHANGED << val, infl, running, created, res, writes, 
-                                 startedAt, superseded, staleInstall, mine, 
-                                 outcome, correct >>
+                 /\ UNCHANGED << val, infl, locked, running, created, res, 
+                                 stale, touched, seen, superseded, inWindow, 
+                                 staleInstall, windowInstall, dropped, mine, 
+                                 outcome, correct, wrote >>
 
 wait(self) == /\ pc[self] = "wait"
               /\ mine[self] \in done
               /\ got' = [got EXCEPT ![self] = res[mine[self]]]
               /\ pc' = [pc EXCEPT ![self] = "finish"]
-              /\ UNCHANGED << val, infl, done, running, created, res, writes, 
-                              startedAt, superseded, staleInstall, mine, 
-                              outcome, correct >>
+              /\ UNCHANGED << val, infl, locked, done, running, created, res, 
+                              stale, touched, seen, superseded, inWindow, 
+                              staleInstall, windowInstall, dropped, mine, 
+                              outcome, correct, wrote >>
 
 finish(self) == /\ pc[self] = "finish"
                 /\ TRUE
                 /\ pc' = [pc EXCEPT ![self] = "Done"]
-                /\ UNCHANGED << val, infl, done, running, created, res, writes, 
-                                startedAt, superseded, got, staleInstall, mine, 
-                                outcome, correct >>
+                /\ UNCHANGED << val, infl, locked, done, running, created, res, 
+                                stale, touched, seen, superseded, got, 
+                                inWindow, staleInstall, windowInstall, dropped, 
+                                mine, outcome, correct, wrote >>
 
 Loader(self) == lookup(self) \/ start(self) \/ ldEnter(self)
                    \/ ldExit(self) \/ install(self) \/ release(self)
                    \/ wait(self) \/ finish(self)
 
-write(self) == /\ pc[self] = "write"
-               /\ IF WriterKind[self] = "set"
-                     THEN /\ val' = 200 + self
-                          /\ infl' = Nil
-                          /\ writes' = writes + 1
-                          /\ superseded' = (superseded \cup created)
-                     ELSE /\ IF WriterKind[self] = "invalidate"
-                                THEN /\ val' = Nil
-                                     /\ infl' = Nil
-                                     /\ writes' = writes + 1
-                                     /\ superseded' = (superseded \cup created)
-                                ELSE /\ IF val # Nil
-                                           THEN /\ val' = Nil
-                                                /\ infl' = Nil
-                                                /\ writes' = writes + 1
-                                                /\ superseded' = (superseded \cup created)
-                                           ELSE /\ TRUE
-                                                /\ UNCHANGED << val, infl, 
-                                                                writes, 
-                                                                superseded >>
-               /\ pc' = [pc EXCEPT ![self] = "Done"]
-               /\ UNCHANGED << done, running, created, res, startedAt, got, 
-                               staleInstall, mine, outcome, correct >>
+w_cancel(self) == /\ pc[self] = "w_cancel"
+                  /\ ~locked
+                  /\ locked' = TRUE
+                  /\ wrote' = [wrote EXCEPT ![self] = WriterKind[self] = "set" \/ (WriterKind[self] \in {"invalidate", "evict"} /\ val # Nil)]
+                  /\ IF wrote'[self] \/ WriterKind[self] = "invalidate" \/ (WriterKind[self] = "stale" /\ StaleCancels)
+                        THEN /\ infl' = Nil
+                             /\ superseded' = (superseded \cup created)
+                        ELSE /\ TRUE
+                             /\ UNCHANGED << infl, superseded >>
+                  /\ IF WriterKind[self] = "invalidate"
+                        THEN /\ touched' = [p \in Getters \cup Refreshers |-> TRUE]
+                        ELSE /\ TRUE
+                             /\ UNCHANGED touched
+                  /\ pc' = [pc EXCEPT ![self] = "w_store"]
+                  /\ UNCHANGED << val, done, running, created, res, stale, 
+                                  seen, got, inWindow, staleInstall, 
+                                  windowInstall, dropped, mine, outcome, 
+                                  correct >>
 
-Writer(self) == write(self)
+w_store(self) == /\ pc[self] = "w_store"
+                 /\ IF wrote[self]
+                       THEN /\ val' = (IF WriterKind[self] = "set" THEN 200 + self ELSE Nil)
+                            /\ stale' = [p \in Getters \cup Refreshers |-> TRUE]
+                            /\ touched' = [p \in Getters \cup Refreshers |-> TRUE]
+                       ELSE /\ TRUE
+                            /\ UNCHANGED << val, stale, touched >>
+                 /\ locked' = FALSE
+                 /\ pc' = [pc EXCEPT ![self] = "Done"]
+                 /\ UNCHANGED << infl, done, running, created, res, seen, 
+                                 superseded, got, inWindow, staleInstall, 
+                                 windowInstall, dropped, mine, outcome, 
+                                 correct, wrote >>
+
+Writer(self) == w_cancel(self) \/ w_store(self)
 
 (* Allow infinite stuttering to prevent deadlock on termination. *)
 Terminating == /\ \A self \in ProcSet: pc[self] = "Done"
@@ -248,6 +355,8 @@ JoinersShare == \A p \in Getters \cup Refreshers :
 Terminates == <>AllDone
 \* C09
 NoStaleInstall == ~staleInstall
-WriteWins == AllDone =>
-                \A w \in Writers : TRUE
+NoWindowInstall == ~windowInstall       \* F17: violated by the model of the current code
+\* C02 / C10 (F16)
+NoDrop == ~dropped
+LockFree == AllDone => ~locked
 =============================================================================
